@@ -91,6 +91,90 @@ def compare_map(case, impl_res, orc):
     return bad
 
 
+LABEL_DTYPES = ["uint8", "uint16", "uint32", "uint64", "int8", "int32", "int64", "float32", "float64", "U3"]
+
+
+def typed_label_cases(rng, n):
+    """labels of every dtype the property names (unsigned / signed integers of all widths, floats with NaN, strings), in memory and
+    held in a dask array (discovered at compute time), with and without expected_groups; cyclic / descending / random patterns so
+    that per-block label lists are ascending, descending or interleaved"""
+    out = []
+    while len(out) < n:
+        dt = rng.choice(LABEL_DTYPES)
+        m = rng.randint(2, 14)
+        k = rng.randint(1, 5)
+        if dt == "U3":
+            pool = rng.sample(["a", "b", "ab", "ba", "c", "B", "zz", "0"], k=k)
+        elif dt.startswith("uint"):
+            pool = rng.sample([0, 1, 2, 3, 4, 7, 200, 255], k=k)
+        elif dt.startswith("int"):
+            pool = rng.sample([-3, -2, -1, 0, 1, 2, 5, 100], k=k)
+        else:
+            pool = rng.sample([-1.5, -1.0, 0.0, 0.5, 1.0, 2.0, 2.5, 10.0], k=k)
+        pat = rng.choice(["random", "cyclic", "cyclic-desc", "runs"])
+        srt = sorted(pool)
+        if pat == "random":
+            labels = [rng.choice(pool) for _ in range(m)]
+        elif pat == "cyclic":
+            labels = [srt[i % k] for i in range(m)]
+        elif pat == "cyclic-desc":
+            labels = [srt[::-1][i % k] for i in range(m)]
+        else:
+            labels = []
+            while len(labels) < m:
+                labels += [rng.choice(pool)] * rng.randint(1, 3)
+            labels = labels[:m]
+        if dt.startswith("float") and rng.random() < 0.4:
+            labels[rng.randrange(m)] = "nan"
+        present = list(dict.fromkeys(x for x in labels if x != "nan"))
+        if not present:
+            continue
+        func = rng.choice(["sum", "nansum", "max", "count", "mean", "nanfirst", "nanlast", "prod", "nanmin"])
+        c = {"func": func, "vals": [rng.randint(-3, 3) for _ in range(m)], "labels": labels, "label_dtype": dt, "sort": rng.random() < 0.6,
+             "engine": rng.choice(["numpy", "flox", None])}
+        ek = rng.choice(["absent", "absent", "sorted", "unsorted"])
+        if ek != "absent":
+            e = sorted(present)
+            if ek == "unsorted":
+                rng.shuffle(e)
+            c["expected"] = e
+        plan = rng.choice(["eager", "map-reduce", "map-reduce", "cohorts", "auto"])
+        if plan != "eager":
+            c["method"] = None if plan == "auto" else plan
+            c["chunks"] = [list(G.random_composition(rng, m, 5))] if rng.random() < 0.7 else [[k] * (m // k) + ([m % k] if m % k else [])]
+            if plan in ("map-reduce", "auto") and rng.random() < 0.6:
+                c["by_dask"] = True
+                c.pop("method", None) if rng.random() < 0.5 else None
+        out.append(c)
+    return out
+
+
+def check_typed(run, cases):
+    """labels ascending and duplicate-free for sort=True; given / first-appearance order for sort=False where specified;
+    the label -> value pairing always that of the sorted per-group NumPy result"""
+    for case, (impl_res, rec, orc) in zip(cases, R.run_cases(cases)):
+        run.count(R.case_key(case), case["labels"] != sorted(case["labels"], key=str) or bool(case.get("by_dask")))
+        hist = run.extra.setdefault("typed_label_dtype_histogram", {})
+        hist[case["label_dtype"]] = hist.get(case["label_dtype"], 0) + 1
+        if not impl_res["ok"]:
+            if impl_res["exc"] not in R.REFUSALS:
+                run.violation({"property": "C16", "kind": "internal error", "case": case, "flox": impl_res}, tag="typed")
+            continue
+        got_labels = impl_res["groups"][0]
+        bad = compare_map(case, impl_res, I.oracle(dict(case, sort=True)))
+        order_specified = case["sort"] or case.get("expected") is not None or case.get("chunks") is None
+        if not bad and order_specified:
+            want_labels = I.oracle(case)["groups"]
+            if [str(I.unf(x)) for x in got_labels] != [str(I.unf(x)) for x in want_labels]:
+                bad = [("<order of labels>", got_labels, want_labels)]
+        if bad:
+            run.violation({"property": "C16", "kind": "labels out of order / repeated, or label->value mapping differs from the per-group NumPy result",
+                           "case": case, "flox": impl_res, "mismatches": [list(map(str, b)) for b in bad[:5]],
+                           "how_to_run": "./check C16 --replay <this file>"}, tag="typed")
+    if cases:
+        run.sample({"typed_label_case": cases[-1]})
+
+
 def nontrivial(case):
     labs = [x for x in case["labels"] if x != "nan"]
     return labs != sorted(labs) or (case.get("expected") is not None and case["expected"] != sorted(case["expected"]))
@@ -104,6 +188,7 @@ def run(run: C.Run):
     unordered = [{k: v for k, v in c.items() if k != "unordered"} for c in cases if c.get("unordered")]
     R.check_reduce_cases(run, ordered, "C16", nontrivial, full=True,
                          grouped_fn=lambda case, rec: rec.get("reindex_blockwise") is False or rec.get("method") in ("cohorts", "blockwise"))
+    check_typed(run, typed_label_cases(rng, 3000 if run.tier == "thorough" else 700))
     # order unspecified: the pairing must still be the sorted result's, nothing lost or repeated
     for case, (impl_res, rec, orc) in zip(unordered, R.run_cases(unordered)):
         run.count(R.case_key(case), nontrivial(case))
@@ -125,7 +210,8 @@ def run(run: C.Run):
                       nofail=True, tag="obligation")
     run.cov["rule"] = (
         "groupby_reduce with sort in {True,False} x expected_groups absent/sorted/unsorted/unsorted-superset x eager/map-reduce/"
-        "cohorts/blockwise/auto; integer labels with missing entries; compared as SEQUENCES (labels and values in order) with the "
+        "cohorts/blockwise/auto; integer labels with missing entries; a typed-label stream (uint8..uint64, int8..int64, float32/64 with NaN, "
+        "strings; in memory and in dask arrays discovered at compute time; cyclic / descending / run patterns); compared as SEQUENCES (labels and values in order) with the "
         "NumPy oracle (ascending for sort=True; given order or first appearance for sort=False) and with the Coq model "
         "(Factorize.v + pipeline); chunked + sort=False + no expected_groups is compared as a MAP against the sorted result; "
         "non-trivial = labels or the request not already ascending")
@@ -133,7 +219,10 @@ def run(run: C.Run):
 
 def replay(run: C.Run, path):
     rp = C.json.load(open(path))
-    if "case" in rp:
+    if "case" in rp and "label_dtype" in rp["case"]:
+        P.front(run)
+        check_typed(run, [rp["case"]])
+    elif "case" in rp:
         R.check_reduce_cases(run, [rp["case"]], run.pid, nontrivial, full=True)
     else:
         P.front(run)
